@@ -108,8 +108,7 @@ QueryNeverFalse ==
 (* Part 2: the calls of one handle                                         *)
 (***************************************************************************)
 Strict      == "empty_name" \in Fixes
-ReOkModel(toks) == \A i \in DOMAIN toks : toks[i].s # "("
-ParseText(toks) == Parse(toks, ReOkModel(toks), Strict)
+ParseText(toks) == Parse(toks, ModelReOk(toks), Strict)
 
 Called(op, ok, arg) == [op |-> op, ok |-> ok, arg |-> arg, pa |-> active, ps |-> stack, pm |-> mstack]
 SeqIdle == Built /\ nops < MaxOps /\ Threads = {}
